@@ -24,10 +24,12 @@ func vOverlapDepth(cis []*ChunkIndex) uint64 {
 
 // C20 (index-based clause): at every moment of an index-based read the number of decompressed chunk buffers
 // held is at most the overlap depth of the chunk time ranges (1 in file order).
-// params: n, per (file shape: n messages, per per chunk), ord (0 file, 1 log time, 2 reverse), win (1: plus a symbolic time window)
+// params: n, per (file shape: n messages, per per chunk), ord (0 file, 1 log time, 2 reverse), win (1: plus a symbolic time window), grow (1: chunk sizes grow along the file)
 func VC20Slots() {
 	n, per, ord := vParam("n"), vParam("per"), vParam("ord")
-	w, file, _ := vMultiChunk(n, per, 2, 0)
+	vMultiChunkGrow = vParam("grow") == 1
+	w, file, msgs := vMultiChunk(n, per, 2, 0)
+	vMultiChunkGrow = false
 	var depth uint64 = 1
 	if ord != 0 {
 		depth = vOverlapDepth(w.ChunkIndexes)
@@ -61,8 +63,24 @@ func VC20Slots() {
 			maxChunk = int(ci.UncompressedSize)
 		}
 	}
+	var lastT uint64
+	nsel := 0
 	for {
-		_, _, _, err := it.NextInto(nil)
+		_, _, m, err := it.NextInto(nil)
+		if err == nil {
+			// (C03/C04 under a window, checked here because this harness already reads windowed multi-chunk files in
+			// every order) the read is sorted and returns only messages inside the window
+			if cnt > 0 && ord == 1 {
+				vAssert(m.LogTime >= lastT, "windowed read: non-decreasing log time")
+			}
+			if cnt > 0 && ord == 2 {
+				vAssert(m.LogTime <= lastT, "windowed read: non-increasing log time")
+			}
+			lastT = m.LogTime
+			if win {
+				vAssert(vAnd(m.LogTime >= ws, m.LogTime < we), "windowed read: message inside the window")
+			}
+		}
 		// inspect the iterator after every step, successful or not
 		live := 0
 		for i := range it.chunkSlots {
@@ -81,7 +99,15 @@ func VC20Slots() {
 	}
 	if !win {
 		vAssert(cnt == n, "every message returned")
+	} else {
+		// exactly the messages inside the window are returned
+		var want uint64
+		for _, mm := range msgs {
+			want += vIte(vAnd(mm.LogTime >= ws, mm.LogTime < we), 1, 0)
+		}
+		vAssert(uint64(cnt) == want, "windowed read: exactly the messages inside the window")
 	}
+	_ = nsel
 	for i := range it.chunkSlots {
 		vAssert(it.chunkSlots[i].unreadMessages == 0, "no slot is left marked as holding unread messages")
 	}
